@@ -403,6 +403,38 @@ impl Kernel {
         }
     }
 
+    /// trace mode: one line per task with what it is waiting for (appended when the run ends)
+    pub fn trace_tasks(&mut self) {
+        if self.trace.is_none() {
+            return;
+        }
+        fn kind(w: &Wait) -> String {
+            match w {
+                Wait::Never => "never".into(),
+                Wait::Until(t) => format!("until {}", t),
+                Wait::Flag(_) => "flag".into(),
+                Wait::PipeReadable(p) => format!("pipe-readable {}", p),
+                Wait::Accept(l) => format!("accept {}", l),
+                Wait::Signal(n) => format!("signal n{}", n),
+                Wait::Kick(n, t) => format!("kick n{} or {}", n, t),
+                Wait::Any(v) => format!("any[{}]", v.iter().map(kind).collect::<Vec<_>>().join(", ")),
+                Wait::Cond(_) => "cond".into(),
+            }
+        }
+        let mut lines = Vec::new();
+        for id in 0..self.metas.len() {
+            if let Some(Some(m)) = self.metas.get(id) {
+                let w = self.waits.get(id).and_then(|w| w.as_ref()).map(kind).unwrap_or_else(|| "-".into());
+                let p = self.paused_until.get(id).copied().unwrap_or(0);
+                let st = self.stalled_until_time.get(id).copied().unwrap_or(0);
+                lines.push(format!("task {} {:?} node {:?} gen {} wait [{}] paused_until_step {} stalled_until {} (now {}, step {})", id, m.name, m.node, m.gen, w, p, st, self.now, self.stats.steps));
+            }
+        }
+        for l in lines {
+            self.trace_ev(|| l);
+        }
+    }
+
     pub fn note(&mut self, v: u64) {
         self.hash = mix(self.hash, v);
     }
@@ -574,7 +606,7 @@ impl Kernel {
                 let steps = self.stats.steps;
                 if let Some(c) = current {
                     if (self.sched_rng.next_u64() & 0xff) < p as u64 {
-                        if self.sched_rng.below(8) == 0 {
+                        if self.sched_rng.below(8) == 0 && std::env::var("NUNSIM_NO_TSTALL").is_err() {
                             // descheduled for a stretch of simulated time (50 us - 3 ms): long enough for
                             // a network round trip to complete meanwhile
                             let d = 50_000 + self.sched_rng.below(3_000_000);
